@@ -38,21 +38,27 @@ Definition case_word (F : str -> str) (b : buf) (arg : Z) : res :=
   end.
 
 (* str.upper / lower / title restricted to the characters the harness uses
-   for these commands (ASCII letters are the only cased characters there). *)
+   for these commands: ASCII letters and U+00DF (sharp s), the one character
+   of the alphabet whose upper/title image is longer than itself
+   ('\xdf'.upper() = 'SS', '\xdf'.title() = 'Ss'); every other character of
+   the alphabet is uncased. *)
 Definition is_lower (c : Z) : bool := (97 <=? c) && (c <=? 122).
 Definition is_upper (c : Z) : bool := (65 <=? c) && (c <=? 90).
+Definition SHARP_S : Z := 223.
 Definition up (c : Z) : Z := if is_lower c then c - 32 else c.
 Definition low (c : Z) : Z := if is_upper c then c + 32 else c.
+Definition up_s (c : Z) : str := if c =? SHARP_S then [83; 83] else [up c].
+Definition title_s (c : Z) : str := if c =? SHARP_S then [83; 115] else [up c].
 Fixpoint title_from (prev_cased : bool) (s : str) : str :=
   match s with
   | [] => []
   | c :: r =>
-      let cased := is_lower c || is_upper c in
-      (if prev_cased then low c else up c) :: title_from cased r
+      let cased := is_lower c || is_upper c || (c =? SHARP_S) in
+      (if prev_cased then [low c] else title_s c) ++ title_from cased r
   end.
 Definition case_F (kind : Z) (s : str) : str :=
   match kind with
-  | 0 => map up s
+  | 0 => flat_map up_s s
   | 1 => map low s
   | _ => title_from false s
   end.
